@@ -146,7 +146,13 @@ func ParseCellRef(ref string) (col, row int, err error) {
 		return 0, 0, fmt.Errorf("invalid column: %s", colPart)
 	}
 
-	// Parse row (1-indexed in Excel, convert to 0-indexed)
+	// Parse row (1-indexed in Excel, convert to 0-indexed). Atoi alone would
+	// accept a sign ("A+1"), which is not a cell reference.
+	for j := 0; j < len(rowPart); j++ {
+		if rowPart[j] < '0' || rowPart[j] > '9' {
+			return 0, 0, fmt.Errorf("invalid row: %s", rowPart)
+		}
+	}
 	rowNum, err := strconv.Atoi(rowPart)
 	if err != nil || rowNum < 1 {
 		return 0, 0, fmt.Errorf("invalid row: %s", rowPart)
